@@ -630,6 +630,7 @@ class Prog:
         if self.mode != "exact":
             choices += ["sigmoid", "exp", "softmax", "recip", "ln"]
         op = rng.choice(choices)
+        alias_to = None
         if op in ("recip", "ln"):
             # keep the operand positive: go through exp first
             t = self.fresh()
@@ -651,7 +652,7 @@ class Prog:
             if k == 0 and a in self.tainted:
                 self.tainted.add(r)
             if k == 0:
-                self.alias[r] = self.alias.get(a, a)
+                alias_to = self.alias.get(a, a)
         elif op == "reshape":
             cnt = prod(s)
             ds = [d for d in range(1, cnt + 1) if cnt % d == 0]
@@ -667,6 +668,8 @@ class Prog:
         self.tr[r] = self.tr[a]
         self.leaf.discard(r)
         self.note(op, r, [a])
+        if alias_to is not None:
+            self.alias[r] = alias_to
         return r
 
     def op_matmul(self, res=None):
